@@ -103,6 +103,7 @@ func c06(c *eng.Ctx, r *eng.Report) {
 		"R6.4 no floating-point value flows into an amount except through Float64ToBigInt at the reviewed stake sites. " +
 		"R6.5 a failed transaction is rolled back through the journal, so the journal entries that carry balances (storageChange: balances and token slots live in account data; suicideChange: the balance a self-destruct zeroed) are undone by exactly their paired raw writes on every path through undo (the C04 pairing rule applied to these entries). " +
 		"R6.7 the affordability pre-check of a contract transaction prices the gas limit the transaction asked for (raw.GasLimit as decoded, never a smaller, capped figure): execution only ever lowers that limit, so the fee it bills is covered — a pre-check that caps differently from execution lets a debit be refused silently (SubBalance does nothing when funds are short) while the fee account is credited in full; " +
+		"R6.10 balances have one source of truth, the journaled storage: AccountDB/accountObject gain no field that is neither journaled nor reviewed (C04's R4.11 here — a cache of decoded balances that RevertToSnapshot does not drop lets a spend pass its affordability check on rolled-back funds); " +
 		"R6.8 the free gas a value-bearing CALL/CALLCODE hands its callee is the constant CallStipend, which is below the CallValueTransferGas the caller was charged: a stipend that grows (scaled with proposal 026 while the price is not) lets a loop of 1-wei calls end with more gas than the limit, `gasLimit - leftOverGas` wraps, the sender's debit is refused and the fee account is still credited; " +
 		"R6.9 the storage key of a balance is the caller's own: GetERC20Key returns a slice of an array allocated in that call, never of a buffer kept on the AccountDB — journal entries keep the key slice, so with a shared buffer every entry since a snapshot points at the key computed last and a revert writes all old balances into one slot; " +
 		"R6.6 locked stake stays part of the conserved total: what GetRefundStake returns for payout is exactly what it subtracts from the miner's recorded stake, and its callers schedule that amount unchanged (C20's R20.3 under this property's id). " +
@@ -117,6 +118,8 @@ func c06(c *eng.Ctx, r *eng.Report) {
 	c06PrecheckGas(c, r)
 	c06Stipend(c, r)
 	c06BalanceKeyFresh(c, r)
+	// R6.10: no unjournaled mirror of balances on the state object (C04's struct census under this property's id)
+	c04StructCensusAs(c, r, "R6.10")
 	// R6.6: locked stake is part of the conserved total (the `lock` class of R6.1): what a refund pays out is exactly
 	// what it takes off the miner's recorded stake (C20's R20.3 re-run under this property's id)
 	sub := eng.NewReport(r.Prop, r.Tier)
@@ -393,6 +396,27 @@ func transferGuarded(c *eng.Ctx) (bool, string) {
 		}
 		if !eng.Reaches(ct, tr) {
 			return false, name + ": CanTransfer does not precede Transfer"
+		}
+		// every path to Transfer has either seen CanTransfer answer yes or established that the value is zero
+		cut := func(a *ssa.BasicBlock, succ int) bool {
+			iff, ok := a.Instrs[len(a.Instrs)-1].(*ssa.If)
+			if !ok {
+				return false
+			}
+			for _, cd := range eng.Conjuncts(iff.Cond, succ == 0, iff) {
+				if cd.V == ssa.Value(ct) && cd.True {
+					return true
+				}
+				if m, isM := cd.Cmp(); isM && strings.Contains(eng.Desc(m.X), ".Sign(") && eng.Desc(m.X) == "(*math/big.Int).Sign("+eng.Desc(ct.Call.Args[2])+")" {
+					if k, isK := eng.ConstInt(m.Y); isK && k == 0 && m.Op == token.EQL {
+						return true
+					}
+				}
+			}
+			return false
+		}
+		if eng.PathToAvoiding(fn, tr, nil, cut) {
+			return false, name + ": Transfer is reachable on a path on which neither CanTransfer answered yes nor the value was found to be zero (e.g. the check is skipped when caller and callee are the same account: SubBalance then fails silently and the credit still lands — a contract calling itself with more than it owns mints the difference)"
 		}
 	}
 	return true, ""
